@@ -24,7 +24,7 @@ def shards(tier):
 
 def floors(tier):
     return {"roundtrips_ok": 5000, "M1.encoder_graphs": 5000, "M2.writes": 5000, "span>=17": 20,
-            "span>=257": 4, "dataset_ok": 300, "respelled_ok": 300, "mixed_label_spellings": 50}
+            "span>=257": 4, "dataset_ok": 300, "respelled_ok": 300, "mixed_label_spellings": 50, "loosened_table_molecules": 500, "encoder_rejects": 100}
 
 
 def _nontrivial(m):
@@ -62,8 +62,15 @@ def run(ctx):
                 continue
             table = sf.get_semantic_constraints()
             tname = "t%d" % i
+        gen_table = table
+        if i % 5 == 4:
+            # generated under a loosened table: some atoms sit above capacity.  The encoder should reject those;
+            # whatever it accepts with strict=True must still survive the round trip
+            gen_table = {k: v + rng.choice([0, 1, 1, 2]) for k, v in table.items()}
+            ctx.count("loosened_table_molecules")
         m = random_tree_mol(rng, rng.choice([1, 2, 3, 6, 10, 20, 40, 60]), ncomp=rng.choice([1, 1, 1, 2, 3]),
-                            p_ring=rng.choice([0.05, 0.15, 0.4]), p_chiral=0.1, p_stereo=0.1, table=table)
+                            p_ring=rng.choice([0.05, 0.15, 0.4]), p_chiral=0.1, p_stereo=0.1, table=gen_table,
+                            p_bracket=rng.choice([0.15, 0.15, 0.5]))
         if not m.atoms:
             continue
         accepted = set()
